@@ -73,6 +73,8 @@ where
         if let Some(ref error) = self.handled_connection_error {
             return Poll::Ready(Err(error.clone()));
         };
+        #[cfg(h3_verif)]
+        crate::verif_hooks::preempt("driver:pce:0");
 
         // Check if the connection is in error state
         if let Some(err) = self.get_conn_error() {
@@ -80,7 +82,11 @@ where
             // err might be a different error so match again
             return Poll::Ready(Err(self.convert_to_connection_error(err)));
         }
+        #[cfg(h3_verif)]
+        crate::verif_hooks::preempt("driver:pce:1");
         self.waker().register(cx.waker());
+        #[cfg(h3_verif)]
+        crate::verif_hooks::preempt("driver:pce:2");
         Poll::Pending
     }
 
